@@ -170,6 +170,7 @@ func cmdCheck(args []string) {
 		reason string
 	}
 	var fails []failure
+	var stale []string
 	var faults []string
 	discharged := 0
 	total := 0
@@ -205,9 +206,11 @@ func cmdCheck(args []string) {
 			autoFr[k] = true
 		}
 		for _, e := range r.SpecErrs {
-			// a contract that no longer resolves fails all obligations of the function (DESIGN §3.9)
+			// a contract clause that no longer resolves against the code (renamed local, removed field): the function
+			// cannot be decided. This is reported as STALE-CONTRACT (exit 2 when nothing else fails), not as a violation:
+			// a failed proof for lack of a matching contract says nothing about the property.
 			total++
-			fails = append(fails, failure{&ObResult{Name: r.Key + "/contract-resolves", Func: r.Key, Descr: e, Clause: e}, e})
+			stale = append(stale, r.Key+": "+e)
 		}
 		for qi := range r.Obs {
 			q := &r.Obs[qi]
@@ -238,6 +241,10 @@ func cmdCheck(args []string) {
 				fails = append(fails, failure{q, q.Status})
 			}
 		}
+	}
+	for _, st := range stale {
+		fmt.Printf("STALE-CONTRACT %s\n", st)
+		faults = append(faults, "stale contract: "+st)
 	}
 	violations := 0
 	var knownHit []string
